@@ -84,6 +84,8 @@ class Session:
         r = self.h.op(op)
         step = {"i": len(self.steps), "pre": self.obs, "op": op, "outcome": r["outcome"], "err": r["err"],
                 "msgs": r["msgs"], "post": r["obs"], "tag": tag, "market_calls": r["market_calls"], "emitted": r.get("emitted", 0), "nested": r.get("nested")}
+        if op.get("reentry") and any(x.get("reentry") for x in op["reentry"]):
+            step["nested"] = None    # deep mode: the harness does not report the outcomes of the individual nested calls
         if r["obs"] == self.obs:
             step["post"] = self.obs  # share the object
         self.obs = step["post"]
